@@ -27,6 +27,11 @@ structure Pub where
   id : Nat
   deriving DecidableEq, Repr, Inhabited
 
+/-- The subject of one group of group_by; `id` names it in the output. -/
+structure Grp where
+  id : Nat
+  deriving DecidableEq, Repr, Inhabited
+
 /-- What an observer / subscription does to the outside, in order: a call on THE downstream observer, a call on
     the k-th of several downstream observers (subject subscribers, group subjects), a run of a user callback
     without result (finalizer), `unsubscribe()` of a nested subscription. -/
@@ -92,6 +97,17 @@ instance {α} : Dflt (Option α) := ⟨none⟩
 instance : Dflt Nat := ⟨0⟩
 instance : Dflt Bool := ⟨false⟩
 instance {α β} [Dflt α] [Dflt β] : Dflt (α × β) := ⟨(dflt, dflt)⟩
+
+/-- `HashMap::get` on the association list a map is read as (insertion order; the real iteration order of a
+    HashMap is unspecified — theorems about `drain` are stated for every permutation in the model) -/
+def mapGet {κ ν} [DecidableEq κ] : List (κ × ν) → κ → Option ν
+  | [], _ => none
+  | (k, v) :: r, q => if k = q then some v else mapGet r q
+/-- `HashMap::insert` of a key that is not present -/
+def mapInsert {κ ν} (m : List (κ × ν)) (k : κ) (v : ν) : List (κ × ν) := m ++ [(k, v)]
+/-- `KeyObservable { key, subject }` as an item: the key and the group it names -/
+def keyObs (k : Val) (g : Grp) : Val := Val.pair k (Val.obs g.id)
+instance : Dflt Grp := ⟨⟨0⟩⟩
 
 abbrev len {α} (l : List α) : Nat := l.length
 abbrev isEmpty {α} (l : List α) : Bool := l.isEmpty
